@@ -77,6 +77,23 @@ Theorem C13_channels_elementwise : forall w h' l, HeapInv w -> channels_g w = Ok
 Proof. exact channels_elementwise. Qed.
 Print Assumptions C13_channels_elementwise.
 
+(* the RESULT SLICE of Users() / Channels() ([]*User / []*Channel): a new object L -- it did
+   not exist before the call, so nothing reachable before the call reaches it and no two
+   calls return the same array --, holding exactly the copies; isolation is kept with the
+   slice and its elements added to what the client holds (so slot writes -- nil, swap -- are
+   client steps like any other: C13_client_op_is_client_step covers OpSlotNil / OpSlotSwap) *)
+Theorem C13_users_listing_fresh : forall w K h' L l, Isolated w K -> users_listing_g w = Ok (h', L, l) ->
+  exists hF, users_g w = Ok (hF, l) /\ h' = hF ++ [CPtrs (List.map Some l)] /\ L = length hF /\
+             length (w_heap w) <= L /\ Isolated (mkWorld h' (w_st w)) ((L :: l) ++ K).
+Proof. exact users_listing_fresh. Qed.
+Print Assumptions C13_users_listing_fresh.
+
+Theorem C13_channels_listing_fresh : forall w K h' L l, Isolated w K -> channels_listing_g w = Ok (h', L, l) ->
+  exists hF, channels_g w = Ok (hF, l) /\ h' = hF ++ [CPtrs (List.map Some l)] /\ L = length hF /\
+             length (w_heap w) <= L /\ Isolated (mkWorld h' (w_st w)) ((L :: l) ++ K).
+Proof. exact channels_listing_fresh. Qed.
+Print Assumptions C13_channels_listing_fresh.
+
 (* every getter call keeps isolation, its results joining what the client holds *)
 Theorem C13_getters_keep_isolation : forall w K, Isolated w K ->
   (forall n h' r, lookup_user_g w n = Ok (h', r) -> Isolated (mkWorld h' (w_st w)) (handles_of r ++ K)) /\
